@@ -14,6 +14,9 @@ import (
 // scripted pool that may fail at connect or at a keep-alive.
 func VerifC20Script() {
 	node := &verifNode{ua: ethnode.UserAgent{Kind: ethnode.Geth}}
+	// the node already has peers (one of them unknown to the pool): whatever happens to the loop, a
+	// failed keep-alive must not touch them (C18)
+	node.peers = []ethnode.PeerInfo{{ID: verifapi.NodeID(1)}, {ID: verifapi.NodeID(2)}}
 	script := &verifPoolScript{}
 	a := &Agent{EthNode: node}
 	custom := verifapi.Bool("custominterval")
@@ -74,6 +77,7 @@ func VerifC20Script() {
 				verifapi.Assume(false)
 			}
 			before := script.updates
+			touched := node.mutations
 			fails := verifapi.Bool(fmt.Sprint("updatefails", e))
 			if fails {
 				script.failUpdateAt = script.updates + 1
@@ -84,6 +88,7 @@ func VerifC20Script() {
 			verifapi.Assert(ok, "c20.ticker-armed-while-running")
 			verifapi.Assert(script.updates == before+1, "c20.one-keepalive-per-tick")
 			if fails {
+				verifapi.Assert(node.mutations == touched, "c18.failed-keepalive-changes-nothing-on-the-node")
 				// a failed keep-alive ends the loop; waiting reports the error
 				verifapi.Assert(verifapi.LiveGoroutines() == 0, "c20.failed-keepalive-ends-loop")
 				verifapi.Assert(a.Wait() != nil, "c20.wait-reports-keepalive-error")
